@@ -6,6 +6,7 @@ from .. import abseval
 from ..abseval import Unsupported
 from ..astutil import u, names_in, walk_no_nested, atoms_of, must_atoms
 from ..model import norm
+from .models import single_def
 
 RULE = 'R-BUILD'
 COMMON_CHECKS = ['_check_states_are_declared', '_check_state_labels', '_check_one_initial_state']
@@ -158,6 +159,50 @@ def _raises(f):
     return [n for n in walk_no_nested(f.node) if isinstance(n, ast.Raise)]
 
 
+def _normalise_guard_atoms(g, atoms):
+    """local names are replaced by their single definition; `if X:` on a set difference is `X is not empty`;
+    `if any(c for ..)` contributes the atoms of c (there is an element for which c holds)"""
+    out = []
+
+    def subst(txt):
+        try:
+            node = ast.parse(txt, mode='eval').body
+        except (SyntaxError, ValueError):
+            return txt
+
+        class R(ast.NodeTransformer):
+            def visit_Name(self, n):
+                d = single_def(g, n.id)
+                if len(d) == 1 and n.id not in g.params and not isinstance(d[0], ast.Constant) and len(u(d[0])) < 80:
+                    return d[0]
+                return n
+        return u(R().visit(node))
+
+    for a in atoms:
+        a = tuple(a)
+        if a[0] == 'truthy':
+            try:
+                node = ast.parse(a[1], mode='eval').body
+            except (SyntaxError, ValueError):
+                node = None
+            if isinstance(node, ast.Call) and isinstance(node.func, ast.Name) and node.func.id == 'any' and node.args and isinstance(node.args[0], (ast.GeneratorExp, ast.ListComp)) and a[3] is True:
+                for b in atoms_of(node.args[0].elt, True):
+                    out.append(tuple(b[:4]) + tuple(a[4:]))
+                continue
+            full = subst(a[1])
+            try:
+                fnode = ast.parse(full, mode='eval').body
+            except (SyntaxError, ValueError):
+                fnode = None
+            if isinstance(fnode, ast.BinOp) and isinstance(fnode.op, ast.Sub):
+                out.append(('empty', full, a[2], not a[3]) + tuple(a[4:]))
+                continue
+            out.append((a[0], full) + a[2:])
+            continue
+        out.append((a[0], subst(a[1]) if isinstance(a[1], str) else a[1], subst(a[2]) if isinstance(a[2], str) else a[2]) + a[3:])
+    return out
+
+
 def check_check_methods(ctx, rep):
     """each check raises exactly under its condition (guard polarity at the raise)"""
     P = ctx.prog.func
@@ -197,11 +242,15 @@ def check_check_methods(ctx, rep):
             rep.violates(RULE + '.guard', g, 'def ' + g.name, 'the check never raises')
             return
         for r in rs:
-            atoms = gx.guard_atoms(gx.cfg.n_of(r))
+            atoms = _normalise_guard_atoms(g, gx.guard_atoms(gx.cfg.n_of(r)))
+            flipped = [tuple(a[:3]) + (not a[3],) + tuple(a[4:]) for a in atoms if isinstance(a[3], bool)]
             if any(pred(a) for a in atoms):
                 rep.holds(RULE + '.guard', g, r, what)
-            else:
+            elif not atoms or any(pred(a) for a in flipped):
+                # no condition at all, or the expected condition with the opposite polarity
                 rep.violates(RULE + '.guard', g, r, bad + ' (guards found: {})'.format([(a[0], a[1], a[2], a[3]) for a in atoms][:3]))
+            else:
+                rep.undecided(RULE + '.guard', g, r, 'the condition of this raise is not in a recognised form: {}'.format([(a[0], a[1], a[2], a[3]) for a in atoms][:3]))
 
     expect_atom('automaton_algorithms.AutomatonBuilder._check_states_are_declared',
                 lambda a: a[0] == 'empty' and a[3] is False and '-' in a[1] and 'used' in a[1].split('-')[0],
@@ -220,9 +269,9 @@ def check_check_methods(ctx, rep):
                 'duplicate detection must test the presence of the key in self.items (not the truthiness of its value: an empty first declaration would be overlooked)')
     expect_atom('automaton_algorithms.AutomatonParser._check_no_duplicates', lambda a: a[0] == 'in' and a[3] is True,
                 'raises exactly when a word was seen before', 'duplicate entries must be detected by membership in the seen set')
-    expect_atom('dfa_algorithms.DFABuilder._check_is_deterministic', lambda a: a[0] == 'in' and a[3] is True and a[1].replace(' ', '') == '(p,a)',
+    expect_atom('dfa_algorithms.DFABuilder._check_is_deterministic', lambda a: a[0] == 'in' and a[3] is True and a[1].replace(' ', '').startswith('(') and a[1].count(',') == 1,
                 'raises exactly when a (state, symbol) pair occurs twice', 'non-determinism must be detected by a repeated (p, a) pair')
-    expect_atom('dfa_algorithms.DFABuilder._check_is_total', lambda a: a[0] == 'in' and a[3] is False and a[1].replace(' ', '') == '(p,a)',
+    expect_atom('dfa_algorithms.DFABuilder._check_is_total', lambda a: a[0] == 'in' and a[3] is False and a[1].replace(' ', '').startswith('(') and a[1].count(',') == 1,
                 'raises exactly when a (state, symbol) pair has no transition', 'totality must be violated exactly by a missing (p, a) pair')
     expect_atom('automaton_algorithms.AutomatonParser.parse_transition', lambda a: a[0] == 'lencmp' and a[3] is True and a[2] in (('LtE', 2), ('Lt', 3)),
                 'raises exactly when a transition line has fewer than three words', 'an incomplete transition (fewer than 3 words) must be rejected')
@@ -236,7 +285,7 @@ def check_check_methods(ctx, rep):
             rep.violates(RULE + '.guard', g, 'def ' + g.name, 'scanned elements are never recorded: duplicates cannot be detected')
     # the totality check ranges over all states and all input symbols
     g = P('dfa_algorithms.DFABuilder._check_is_total')
-    loops = [u(n.iter) for n in walk_no_nested(g.node) if isinstance(n, ast.For)]
+    loops = [u(n.iter) for n in walk_no_nested(g.node) if isinstance(n, ast.For)] + [u(c.iter) for n in walk_no_nested(g.node) if isinstance(n, (ast.GeneratorExp, ast.ListComp, ast.SetComp)) for c in n.generators]
     if 'A.states' in loops and any(l in ('input_symbols',) for l in loops):
         rep.holds(RULE + '.guard', g, 'for p in A.states', 'totality is checked for every declared state and every input symbol')
     else:
